@@ -229,6 +229,11 @@ def run(ctx):
     has_thunk = any(FORMATTER_THUNK.search(qir.demangle([s]).get(s, s)) for ss in refs.values() for s in ss)
     ctx.ob("C11.R3b", "effects.cpp:decoder-carries-formatter", has_thunk,
            "the user formatter of a deferred-format type is bound on the backend side (referenced from decode_and_store_args), not by the log call")
+    # the per-thread size cache stays within its inline capacity only because every size pass starts from an empty cache, whether or not
+    # the statement is then dropped before the encode pass (= C04.R2: an ever growing cache allocates on the hot path)
+    from rules import c04
+    from rules.c09 import Renamed
+    c04.cache_rules(Renamed(ctx, "C04.R2", "C11.R5"), ctx.facts("effects.cpp", "A", ()))
     if ctx.tier == "thorough":
         macro_tier(ctx)
         matrix_tier(ctx)
